@@ -96,7 +96,10 @@ func genC06(t *rapid.T) AxisCase {
 		cc := rapid.IntRange(0, 119).Draw(t, "cc")
 		a.CC = intp(cc)
 		a.CCNeg = intp((cc + 1 + rapid.IntRange(0, 117).Draw(t, "ccNegDelta")) % 120)
-		if rapid.Bool().Draw(t, "hasOffNeg") {
+		if rapid.IntRange(0, 7).Draw(t, "sameController") == 0 {
+			// both directions on one controller (and one channel): the distance from the centre, whichever way
+			a.CCNeg = intp(cc)
+		} else if rapid.Bool().Draw(t, "hasOffNeg") {
 			a.OffNeg = intp(rapid.IntRange(0, 15).Draw(t, "offNeg"))
 		}
 	case 2:
